@@ -79,7 +79,8 @@ pub struct FaultCtx<'a> {
     pub others: &'a [Message],
 }
 
-pub const LOGICAL_KINDS: [&str; 30] = [
+pub const LOGICAL_KINDS: [&str; 31] = [
+    "date-leap-second",
     "method",
     "path-byte",
     "path-add-seg",
@@ -373,6 +374,25 @@ pub fn apply_logical(kind: &'static str, m: &mut Message, cx: &FaultCtx, t: &mut
                     a.date_text = text;
                 }
                 note = format!("{:+} s", k);
+                component = "date";
+            }
+            "date-leap-second" => {
+                // re-stamp hh:mm:59 as hh:mm:60 / :61 (no such second exists in this calendar; a
+                // parser that clamps it would let the old signature through)
+                let text = a.date_text.clone().into_bytes();
+                let digits: Vec<usize> = (0..text.len()).filter(|i| text[*i].is_ascii_digit()).collect();
+                if digits.len() < 14 || text[digits[12]] != b'5' || text[digits[13]] != b'9' {
+                    return None;
+                }
+                let mut nt = text.clone();
+                nt[digits[12]] = b'6';
+                nt[digits[13]] = b'0' + t.below(2) as u8;
+                let nt = String::from_utf8(nt).ok()?;
+                if a.carrier == Carrier::Header {
+                    let pos = l.headers.iter().position(|(n, _)| n == "x-amz-date").or(l.headers.iter().position(|(n, _)| n == "date"))?;
+                    l.headers[pos].1 = nt.clone().into_bytes();
+                }
+                a.date_text = nt;
                 component = "date";
             }
             "cred-access-key" => {
